@@ -616,3 +616,8 @@ MUTANTS = [
      'old': '    return zck->lead_size + zck->header_length;',
      'new': '    size_t lead = zck->lead_size;\n    return zck->header_length + lead;', 'expect': None},
 ]
+
+
+# SESSION7 additions to the claim (clauses added in DESIGN section 12)
+CLAIM['technique'] += '; field value sets (flow-insensitive, closed over copies and call sites) against bit-field widths; header term of the representable running sum checked against the fields set before the index is parsed'
+CLAIM['text'] += ' C13-h: every constant known to be stored in a bit-field fits its width. C13-e (extended): the sum proven representable includes the header size through a field that is already set when the index is parsed.'
